@@ -374,6 +374,9 @@ def gen(tier, seed, prop):
     m = json.load(open(os.path.join(os.path.dirname(__file__), "..", "pinned", "c11_segcircle.json")))
     da, db = dict(m["A"]), dict(m["B"])
     pinned.append((m["fn"], PR.Prim(da.pop("kind"), **da), PR.Prim(db.pop("kind"), **db), (m["lift"][0], np.array(m["lift"][1]), np.array(m["lift"][2]))))
+    m = json.load(open(os.path.join(os.path.dirname(__file__), "..", "pinned", "c11_linecircle.json")))
+    da, db = dict(m["A"]), dict(m["B"])
+    pinned.append((m["fn"], PR.Prim(da.pop("kind"), **da), PR.Prim(db.pop("kind"), **db), (m["lift"][0], np.array(m["lift"][1]), np.array(m["lift"][2]))))
     for fname, A, B, lift in pinned:
         n += 1
         rid = f"p{n}"
